@@ -78,7 +78,7 @@ pub fn spec(id: &str) -> Option<PropSpec> {
             vec!["cur-blst"],
         )),
         "C01" => Some(base(
-            vec![cs(&SIGN, "grid", 1296, 1296 * 3, true), cs(&SIGN, "retry-restart", 600, 12000, false)],
+            vec![cs(&SIGN, "grid", 1368, 1368 * 3, true), cs(&SIGN, "retry-restart", 600, 12000, false)],
             "cases = (group, scheme, key class {1, 2, r-2, r-1, hash-derived, seeded random}, message-length class, key codec on disk, wire codec, fault-script length); \
              class `grid` enumerates every key class x length class (0,1,31,32,33,127,128,129,255,256,257,4 KiB,16382,16383,16384,64 KiB,40,100 and the hash block / XOF rate boundaries 7,8,15,16,17,23,24,55,56,63,64,65,119,120,167,168,169,336) x scheme x group; \
              non-trivial = a run with at least one transport/crash fault (retries, duplicates, restarts with key reload)",
